@@ -70,6 +70,7 @@ class Gen:
         self.n_names = 0
 
     def chance(self, pct):
+        pct = int(pct)
         if pct <= 0:
             return False
         if pct >= 100:
@@ -163,7 +164,7 @@ def gen_cost(g):
 
 def gen_resources(g, spec, H):
     tasks = spec["tasks"]
-    nw = g.int(1, 3)
+    nw = g.int(*g.p.get("n_workers", (1, 3)))
     for i in range(nw):
         w = {"name": f"W{i+1}"}
         if g.chance(35):
@@ -186,16 +187,14 @@ def gen_resources(g, spec, H):
         n_assign = g.int(1, 2)
         for _ in range(n_assign):
             free = [w for w in wnames if w not in used]
-            choices = []
-            if free:
-                choices += ["worker", "worker"]
-            if len(free) >= 2 and g.p["p_select"] > 0:
-                choices += ["select"]
-            if spec["cumulative"] and "K1" not in used and g.p["p_cumulative"] > 0:
-                choices += ["cumulative"]
-            if not choices:
+            if len(free) >= 2 and g.chance(g.p["p_select"] * 0.6):
+                k = "select"
+            elif spec["cumulative"] and "K1" not in used and g.chance(g.p["p_cumulative"] * 0.8):
+                k = "cumulative"
+            elif free:
+                k = "worker"
+            else:
                 break
-            k = g.pick(choices)
             if k == "worker":
                 w = g.pick(free)
                 used.add(w)
@@ -524,7 +523,28 @@ def gen_indicator(g, ty, spec, H, idx):
     elif ty == "FromMathExpression":
         i["name"] = f"ind{idx}"
         i["expr"] = gen_arith(g, spec, H)
+        opt = {t["name"] for t in spec["tasks"] if t["optional"]}
+        if H is not None and not (_expr_tasks(i["expr"]) & opt) and g.chance(g.p.get("p_indicator_bounds", 0)):
+            # documented 'bounds' of an indicator: must be true bounds, here by interval arithmetic over [0, H]
+            i["bounds"] = list(expr_bounds(i["expr"], H))
     return i
+
+
+def expr_bounds(ast, H):
+    op = ast["op"]
+    if op == "const":
+        return ast["v"], ast["v"]
+    if op == "var":
+        return 0, H
+    a, b = expr_bounds(ast["a"], H), expr_bounds(ast["b"], H)
+    if op == "+":
+        return a[0] + b[0], a[1] + b[1]
+    if op == "-":
+        return a[0] - b[1], a[1] - b[0]
+    if op == "*":
+        prods = [x * y for x in a for y in b]
+        return min(prods), max(prods)
+    raise ValueError(op)
 
 
 MIN_OBJECTIVES = [
@@ -595,6 +615,8 @@ def gen_objective(g, ty, spec, H, idx):
 def gen_objectives(g, spec, H, n, direction=None):
     direction = direction or g.pick(["min", "min", "max"])
     pool = list(MIN_OBJECTIVES if direction == "min" else MAX_OBJECTIVES)
+    if g.p.get("only_objectives"):
+        pool = [x for x in pool if x in g.p["only_objectives"]] or pool
     out, seen = [], set()
     for k in range(n):
         for _ in range(4):
@@ -667,6 +689,16 @@ def specs(draw, prof=None):
             c = None
         if c is not None:
             spec["constraints"].append(c)
+
+    if prof.get("p_interleave"):
+        # declare some resource constraints between two assignments of their resource
+        sel = {s_["name"]: s_ for s_ in spec["selects"]}
+        for c in spec["constraints"]:
+            if c["type"] not in ("ResourceUnavailable", "WorkLoad", "ResourcePeriodicallyUnavailable") or not g.chance(prof["p_interleave"]):
+                continue
+            idx = [i for i, a in enumerate(spec["assign"]) if a["res"] == c["res"] or (a["res"] in sel and c["res"] in sel[a["res"]]["workers"])]
+            if len(idx) >= 2:
+                c["after_assign"] = g.pick(idx[:-1]) + 1
 
     for bi in range(g.cnt(prof["buffers"])):
         b, accesses = gen_buffer(g, spec, H, bi + 1)
